@@ -27,17 +27,24 @@ import traceback
 from typing import Any, Callable, Iterable, Iterator, List, Optional, Sequence, Tuple
 
 Result = Tuple[str, Any]
+_DEPTH = 0
 
 
 def _child(fn: Callable[[Any], Any], task: Any, wfd: int, timeout: float, dumppath: str) -> None:
     # Never returns.
+    global _DEPTH
     code = 0
     try:
+        _DEPTH += 1
         try:
-            df = open(dumppath, 'w')
-            faulthandler.enable(df)
-            if timeout > 2:
-                faulthandler.dump_traceback_later(max(1.0, timeout - 1.5), exit=False, file=df)
+            # Only first-level children arm the watchdog: a process forked while its parent has a
+            # pending dump_traceback_later() dead-locks when it tries to re-arm it (the lock of the
+            # watchdog thread is copied in the locked state).
+            if _DEPTH == 1:
+                df = open(dumppath, 'w')
+                faulthandler.enable(df)
+                if timeout > 2:
+                    faulthandler.dump_traceback_later(max(1.0, timeout - 1.5), exit=False, file=df)
         except Exception:
             pass
         # stray prints of the simulated program must never reach the check's stdout
